@@ -72,9 +72,11 @@ PROPS = {
                        'gen_hasref_decok:trait HasRefUnit::equiv_amount', 'gen_hasref_decok:trait HasRefUnit::div', 'gen_hasref_decok:trait HasRefUnit::_fit',
                        'gen_hasref_decok:lemma_C18_dec_equiv_amount_total', 'gen_hasref_decok:lemma_C18_dec_comparison_total',
                        'gen_hasref_decok:lemma_C18_dec_sum_difference_total', 'gen_hasref_decok:lemma_C18_dec_ratio_total',
-                       'gen_hasref_decok:lemma_C18_dec_fit_total'],
+                       'gen_hasref_decok:lemma_C18_dec_fit_total', 'gen_hasref_decok:lemma_C18_dec_derived_product_natural_total',
+                       'gen_hasref_decok:lemma_C18_dec_derived_quotient_natural_total', 'gen_hasref_decok:lemma_C18_dec_derived_product_fitted_total',
+                       'gen_hasref_decok:lemma_C18_dec_derived_quotient_fitted_total'],
             'assumptions': ['A-fpdec-range (decimal half, contracts/lemmas_c18_dec.vrs ax_fpdec_*): an fpdec operation whose operands and exact result are at most 1e20 in absolute value, divisor non-zero, does not panic - read off fpdec 0.11 (i128 coefficient, at most 18 fractional digits), not verified',
-                            'decimal half covers the generic HasRefUnit methods (equiv_amount, convert, eq, partial_cmp, add, sub, div, _fit) and LinearScaledUnit::ratio; the generated derived operators and the rate operators are decided for the f64 configuration only']},
+                            'decimal half: exec-level (every operation performed is within the stated precondition) for the generic HasRefUnit methods (equiv_amount, convert, eq, partial_cmp, add, sub, div, _fit) and LinearScaledUnit::ratio; for the generated derived operators only the operations of their Layer-A normal form are examined (spec level: natural-unit branch proved, fitted-unit branch refuted - findings F4, F5); the rate operators are decided for the f64 configuration only']},
     'C13': {'level': 'proof', 'quick': ['gen_quantity', 'lemmas_m1_f64'] + TYPES_Q + ['kani_q_f64:crt', 'kani_astro_f64:crt', 'kani_fix_f64:crt'], 'thorough': TYPES_FIX,
             'expect': ['gen_quantity:impl Rate::new', 'gen_quantity:impl Rate::from_qty_vals', 'gen_quantity:impl Rate::term_amount',
                        'gen_quantity:impl Rate::term_unit', 'gen_quantity:impl Rate::per_unit_multiple', 'gen_quantity:impl Rate::per_unit',
